@@ -106,6 +106,10 @@ func run(raw json.RawMessage) (common.Case, error) {
 	if in.Workers > 0 {
 		c.Class = "saturated-pool/" + c.Class
 	}
+	if res.Hung {
+		c.GoPred = "the request was never answered although every forwarded write had responded (response channel never closed?)"
+		c.Sig = "no-answer"
+	}
 	return c, nil
 }
 
